@@ -4,6 +4,7 @@ package main
 // action functions compiled into grammar/grammar.go.
 
 import (
+	"go/scanner"
 	"bytes"
 	"fmt"
 	"go/ast"
@@ -67,8 +68,31 @@ func printBody(fset *token.FileSet, body *ast.BlockStmt) (string, error) {
 	if err := cfg.Fprint(&buf, fset, body); err != nil {
 		return "", err
 	}
-	// collapse all whitespace runs: formatting is not a difference
-	return strings.Join(strings.Fields(buf.String()), " "), nil
+	// the token sequence: formatting and comments are not a difference
+	return tokenString(buf.String()), nil
+}
+
+func tokenString(src string) string {
+	fs := token.NewFileSet()
+	file := fs.AddFile("x.go", -1, len(src))
+	var sc scanner.Scanner
+	sc.Init(file, []byte(src), nil, 0) // comments are skipped
+	var out []string
+	for {
+		_, tok, lit := sc.Scan()
+		if tok == token.EOF {
+			break
+		}
+		if tok == token.SEMICOLON && lit == "\n" {
+			continue // automatically inserted at a line end
+		}
+		if lit != "" {
+			out = append(out, lit)
+		} else {
+			out = append(out, tok.String())
+		}
+	}
+	return strings.Join(out, " ")
 }
 
 // labelsInScope returns the labels visible to the code block at node n: the
